@@ -308,4 +308,168 @@ def slashBuf (k : Nat) (a : Buf) (p : Nat) : Slash Buf :=
 def slash4I (a : Nat) (p : Int) : Slash Nat := if p < 0 then .logicError else slash4 a p.toNat
 def slashBufI (k : Nat) (a : Buf) (p : Int) : Slash Buf := if p < 0 then .logicError else slashBuf k a p.toNat
 
+/-! ## IPv6 text (src/ipv6_address.cpp: `IPv6Address::init` = `inet_pton(AF_INET6, …)`, `to_string` = `inet_ntop(AF_INET6, …)`)
+
+  libtins has no code of its own here: `init(const char* addr)` is `if (inet_pton(AF_INET6, addr, address_) == 0) throw
+  invalid_address();` and `to_string()` is `char buffer[INET6_ADDRSTRLEN]; if (inet_ntop(AF_INET6, address_, buffer,
+  sizeof(buffer)) == 0) throw invalid_address(); return buffer;`.  What follows is a reference model of the two glibc
+  routines (resolv/inet_pton.c `inet_pton6`, resolv/inet_ntop.c `inet_ntop6`, glibc ≥ 2.26), statement for statement;
+  the correspondence compares it with the libc the harness is linked against on every run. -/
+namespace V6
+
+/-- glibc `hex_digit_value` (−1 = `none`) -/
+def hexDigitValue (ch : Nat) : Option Nat :=
+  if 48 ≤ ch ∧ ch ≤ 57 then some (ch - 48)
+  else if 97 ≤ ch ∧ ch ≤ 102 then some (ch - 97 + 10)
+  else if 65 ≤ ch ∧ ch ≤ 70 then some (ch - 65 + 10)
+  else none
+
+/-- the two bytes `*tp++ = (val >> 8) & 0xff; *tp++ = val & 0xff;` -/
+def store16 (val : Nat) : List Nat := [val / 256 % 256, val % 256]
+
+/-- the code of `inet_pton6` after the scanning loop. `tp` = the bytes written to `tmp` so far (`tp - tmp` = its
+    length, `endp - tmp` = 16), `colonp` = offset of the `::` in `tmp` if one was seen.
+    ```
+    if (xdigits_seen > 0) { if (tp + 2 > endp) return 0; *tp++ = val >> 8; *tp++ = val; }
+    if (colonp != NULL) { if (tp == endp) return 0;  n = tp - colonp; memmove(endp - n, colonp, n);
+                          memset(colonp, 0, endp - n - colonp); tp = endp; }
+    if (tp != endp) return 0;
+    ``` -/
+def pton6Finish (seen val : Nat) (tp : List Nat) (colonp : Option Nat) : Option (List Nat) :=
+  let r := if seen > 0 then (if tp.length + 2 > 16 then none else some (tp ++ store16 val)) else some tp
+  match r with
+  | none => none
+  | some tp =>
+    match colonp with
+    | some c =>
+      if tp.length = 16 then none        -- "::" would expand to a zero-width field
+      else some (tp.take c ++ List.replicate (16 - tp.length) 0 ++ tp.drop c)
+    | none => if tp.length ≠ 16 then none else some tp
+
+/-- `while (src < src_endp) { ch = *src++; … }` of `inet_pton6`.
+    Arguments: the unread text, `curtok` (the text from the start of the current token **to the end of the string** —
+    `inet_pton4 (curtok, src_endp, tp)` reads all of it), `xdigits_seen`, `val`, the bytes written, `colonp`. -/
+def pton6Loop : List Nat → List Nat → Nat → Nat → List Nat → Option Nat → Option (List Nat)
+  | [], _, seen, val, tp, colonp => pton6Finish seen val tp colonp
+  | ch :: rest, curtok, seen, val, tp, colonp =>
+    match hexDigitValue ch with
+    | some d =>
+      if seen = 4 then none
+      else
+        let v := (val <<< 4) ||| d
+        if v > 0xffff then none else pton6Loop rest curtok (seen + 1) v tp colonp
+    | none =>
+      if ch = 58 then
+        -- curtok = src
+        if seen = 0 then
+          if colonp.isSome then none else pton6Loop rest rest seen val tp (some tp.length)
+        else if rest = [] then none
+        else if tp.length + 2 > 16 then none
+        else pton6Loop rest rest 0 0 (tp ++ store16 val) colonp
+      else if ch = 46 ∧ tp.length + 4 ≤ 16 then
+        match V4.pton4Loop curtok 0 false 0 [] with
+        | some q => pton6Finish 0 val (tp ++ q) colonp      -- tp += 4; xdigits_seen = 0; break
+        | none => none
+      else none
+
+/-- `inet_pton6 (src, src_endp, dst)`: the empty text and a leading single ':' are refused before the loop;
+    after a leading "::" the loop starts at the second colon. `none` = return value 0. -/
+def pton6 : List Nat → Option (List Nat)
+  | [] => none
+  | c :: rest =>
+    if c = 58 then
+      match rest with
+      | c' :: _ => if c' = 58 then pton6Loop rest rest 0 0 [] none else none
+      | [] => none
+    else pton6Loop (c :: rest) (c :: rest) 0 0 [] none
+
+/-- `IPv6Address::init`: `none` = `throw invalid_address()`. The text is the C string (ends at the first NUL). -/
+def parse (s : List Nat) : Option Buf := pton6 s
+
+/-- `words[i / 2] = (src[i] << 8) | src[i + 1]` -/
+def words : List Nat → List Nat
+  | b0 :: b1 :: r => (b0 * 256 + b1) :: words r
+  | _ => []
+
+/-- `if (best.base == -1 || cur.len > best.len) best = cur;` (`none` = base −1; a run is (base, len)) -/
+def pick (best : Option (Nat × Nat)) (cur : Nat × Nat) : Option (Nat × Nat) :=
+  match best with
+  | none => some cur
+  | some b => if cur.2 > b.2 then some cur else some b
+
+/-- the run-finding loop of `inet_ntop6` over `words[i..]`, then the two statements after it
+    (`if (cur.base != -1) …pick…; if (best.base != -1 && best.len < 2) best.base = -1;`) -/
+def scanRuns : List Nat → Nat → Option (Nat × Nat) → Option (Nat × Nat) → Option (Nat × Nat)
+  | [], _, best, cur =>
+    let best := match cur with | some c => pick best c | none => best
+    match best with
+    | some b => if b.2 < 2 then none else some b
+    | none => none
+  | w :: ws, i, best, cur =>
+    if w = 0 then
+      match cur with
+      | none => scanRuns ws (i + 1) best (some (i, 1))
+      | some (b, l) => scanRuns ws (i + 1) best (some (b, l + 1))
+    else
+      match cur with
+      | some c => scanRuns ws (i + 1) (pick best c) none
+      | none => scanRuns ws (i + 1) best none
+
+def hexChar (v : Nat) : Nat := if v < 10 then 48 + v else 87 + v
+
+/-- `sprintf(tp, "%x", words[i])` for a 16-bit value -/
+def fmtHex (w : Nat) : List Nat :=
+  if w < 16 then [hexChar w]
+  else if w < 256 then [hexChar (w / 16), hexChar (w % 16)]
+  else if w < 4096 then [hexChar (w / 256), hexChar (w / 16 % 16), hexChar (w % 16)]
+  else [hexChar (w / 4096 % 16), hexChar (w / 256 % 16), hexChar (w / 16 % 16), hexChar (w % 16)]
+
+/-- `inet_ntop4`: `sprintf(tmp, "%u.%u.%u.%u", src[0], src[1], src[2], src[3])` -/
+def ntop4 : List Nat → List Nat
+  | [a, b, c, d] => V4.decOctet a ++ [46] ++ V4.decOctet b ++ [46] ++ V4.decOctet c ++ [46] ++ V4.decOctet d
+  | _ => []
+
+/-- `best.base != -1 && i >= best.base && i < best.base + best.len` -/
+def inBest (best : Option (Nat × Nat)) (i : Nat) : Bool :=
+  match best with
+  | some (b, l) => decide (b ≤ i ∧ i < b + l)
+  | none => false
+
+/-- `i == 6 && best.base == 0 && (best.len == 6 || (best.len == 5 && words[5] == 0xffff))` -/
+def isEncapsulatedV4 (best : Option (Nat × Nat)) (i w5 : Nat) : Bool :=
+  match best with
+  | some (b, l) => decide (i = 6 ∧ b = 0 ∧ (l = 6 ∨ (l = 5 ∧ w5 = 0xffff)))
+  | none => false
+
+/-- the formatting loop of `inet_ntop6` over `words[i..]`; `out` = the characters written so far -/
+def fmtLoop (src : List Nat) (best : Option (Nat × Nat)) (w5 : Nat) : List Nat → Nat → List Nat → List Nat
+  | [], _, out => out
+  | w :: ws, i, out =>
+    if inBest best i then
+      fmtLoop src best w5 ws (i + 1) (if some i = best.map (·.1) then out ++ [58] else out)
+    else
+      let out := if i ≠ 0 then out ++ [58] else out
+      if isEncapsulatedV4 best i w5 then out ++ ntop4 (src.drop 12)       -- break
+      else fmtLoop src best w5 ws (i + 1) (out ++ fmtHex w)
+
+/-- `inet_ntop6` up to the final size check: the text (without the terminating NUL) -/
+def ntop6 (src : List Nat) : List Nat :=
+  let ws := words src
+  let best := scanRuns ws 0 none none
+  let out := fmtLoop src best (ws.getD 5 0) ws 0 []
+  match best with
+  | some (b, l) => if b + l = 8 then out ++ [58] else out       -- trailing run of zeros
+  | none => out
+
+/-- `IPv6Address::to_string`: `inet_ntop(AF_INET6, address_, buffer, sizeof(buffer))` with `sizeof(buffer)` =
+    `INET6_ADDRSTRLEN` = 46; `if ((socklen_t)(tp - tmp) > size) { errno = ENOSPC; return NULL; }` counts the NUL.
+    `none` = `throw invalid_address()`. -/
+def toStringSized (size : Nat) (a : Buf) : Option (List Nat) :=
+  let s := ntop6 a
+  if s.length + 1 > size then none else some s
+
+def toString (a : Buf) : Option (List Nat) := toStringSized 46 a
+
+end V6
+
 end Tins.Addr
